@@ -133,4 +133,4 @@ def run(case, ctx):
         raise Violation("backends:both-wrong-on-satisfiability", {"claimed": verdicts["dfs"], "truth": bool(sols)})
 
 
-SUBS = [Sub("model_solve", run, strategy=lambda tier: cpmodel.solve_case(), quick=2500, thorough=8000, workers_quick=4)]
+SUBS = [Sub("model_solve", run, strategy=lambda tier: cpmodel.solve_case(), quick=3000, thorough=8000, workers_quick=8)]
